@@ -25,7 +25,9 @@ import (
 //         (lists comma separated; option names as in --help)
 //       P:<addr|dc|tok+tok;...>     peers in the YAML file ('-' = empty field)
 //       X:badyaml                   the YAML file is not valid YAML ; X:yamltype  a value of the wrong type in it
-// real: refused:<exit code> | started:ver=<version used towards the backend>,max=<highest version accepted from clients>
+// real: refused:<exit code> | started:ver=<version used towards the backend>,max=<highest version accepted from clients>[,ov=<c>]
+//       ov: when unsupported write consistencies are configured, the consistency the backend sees for an INSERT sent with
+//       the first of them
 
 func init() {
 	streams["cfg"] = stream{gen: genCfg, run: runCfgParent}
@@ -190,6 +192,19 @@ func runCfgChild(op string) string {
 		_ = f.Close()
 		args = append(args, "--config", f.Name())
 	}
+	// the first unsupported consistency named anywhere (file over flag over environment), by its documented code
+	firstUnsupported := -1
+	for _, src := range []string{"E:", "F:", "Y:"} {
+		for _, t := range strings.Fields(op) {
+			if strings.HasPrefix(t, src+"unsupported-write-consistencies=") {
+				first := strings.ToLower(strings.Split(strings.SplitN(t, "=", 2)[1], ",")[0])
+				codes := map[string]int{"any": 0, "one": 1, "two": 2, "three": 3, "quorum": 4, "all": 5, "local_quorum": 6, "each_quorum": 7, "serial": 8, "local_serial": 9, "local_one": 10}
+				if c, ok := codes[first]; ok {
+					firstUnsupported = c
+				}
+			}
+		}
+	}
 	ctx, cancel := context.WithCancel(context.Background())
 	defer cancel()
 	done := make(chan int, 1)
@@ -219,11 +234,46 @@ func runCfgChild(op string) string {
 					}
 				}
 			}
-			return fmt.Sprintf("started:ver=%d,max=%d", ver, max)
+			res := fmt.Sprintf("started:ver=%d,max=%d", ver, max)
+			if firstUnsupported >= 0 {
+				res += ",ov=" + cfgOverrideSeen(bind, cl, uint16(firstUnsupported))
+			}
+			return res
 		}
 		time.Sleep(20 * time.Millisecond)
 	}
 	return "neither-started-nor-refused"
+}
+
+// cfgOverrideSeen sends an INSERT with the given consistency through the running proxy and reports the consistency
+// the backend received.
+func cfgOverrideSeen(addr string, cl *fakecass.Cluster, cons uint16) string {
+	c, err := e2e.DialRaw(addr)
+	if err != nil {
+		return "dial"
+	}
+	defer c.Close()
+	c.Version = primitive.ProtocolVersion4
+	if c.Send(1, &message.Startup{Options: map[string]string{"CQL_VERSION": "3.0.0"}}) != nil {
+		return "write"
+	}
+	if _, err := c.Recv(2 * time.Second); err != nil {
+		return "startup"
+	}
+	before := cl.LogLen()
+	_ = c.Send(2, &message.Query{Query: "INSERT INTO ks.t (k) VALUES (1)", Options: &message.QueryOptions{Consistency: primitive.ConsistencyLevel(cons)}})
+	if _, err := c.Recv(3 * time.Second); err != nil {
+		return "unanswered"
+	}
+	log := cl.Log()
+	for _, rq := range log[before:] {
+		if rq.Frame != nil {
+			if q, ok := rq.Frame.Body.Message.(*message.Query); ok {
+				return fmt.Sprint(int(q.Options.Consistency))
+			}
+		}
+	}
+	return "not-forwarded"
 }
 
 func cfgAccepts(addr string, v byte) bool {
@@ -270,7 +320,16 @@ func genCfg(e *emitter, r *rng.R, n int, tier string) {
 			fmt.Sprintf("B:flag %s:tokens=1,2 %s:rpc-address=127.0.0.1 P:127.0.0.2|-|-", s, s),
 			fmt.Sprintf("B:flag %s:tokens=1,2 %s:rpc-address=127.0.0.1 P:127.0.0.2|-|5+6", s, s),
 			fmt.Sprintf("B:flag %s:rpc-address=127.0.0.1 P:-|dc2|-", s),
+			fmt.Sprintf("B:flag %s:tokens=1,2 %s:rpc-address=127.0.0.1 P:127.0.0.2|-|5;127.0.0.3|-|-", s, s),
+			fmt.Sprintf("B:flag %s:tokens=1,2 %s:rpc-address=127.0.0.1 P:127.0.0.2|-|-;127.0.0.3|-|7;127.0.0.4|-|8", s, s),
+			fmt.Sprintf("B:flag %s:tokens=1,2 %s:rpc-address=127.0.0.1 P:127.0.0.2|-|5;127.0.0.3|-|6", s, s),
 		)
+		for _, o := range []string{"any", "ANY", "one", "Two", "three", "quorum", "all", "local_quorum", "each_quorum", "serial", "local_serial", "LOCAL_ONE"} {
+			if s != "E" { // the override has no environment variable
+				ops = append(ops, fmt.Sprintf("B:flag %s:unsupported-write-consistencies=quorum,all %s:unsupported-write-consistency-override=%s", s, s, o))
+			}
+		}
+		ops = append(ops, fmt.Sprintf("B:flag %s:unsupported-write-consistencies=each_quorum", s))
 	}
 	ops = append(ops, "B:none", "B:env", "B:yaml", "B:flag", "B:none Y:num-conns=2", "B:flag P:127.0.0.2|-|-", "B:flag F:rpc-address=127.0.0.1 P:127.0.0.2|dc2|-;127.0.0.1|-|-",
 		"B:flag X:badyaml", "B:flag X:yamltype", "B:flag F:num-conns=3 X:badyaml", "B:yaml X:yamltype",
